@@ -306,6 +306,36 @@ func c12Run(cc *c12Case, sampleOffsets func(n int, boundaries []int) []int) ([]s
 			failing = fail("overwrite", 0, 0, m...)
 		}
 	}
+	// --- (g) overwrite=true onto an existing entry of the same name and version that holds other rules as well:
+	// the registered knowledge base is the stored one afterwards, nothing of the earlier entry is left
+	if cc.What == "" || cc.What == "overwrite-true" {
+		lo, berr := obs.Build(c12Leftover + c.Text)
+		if berr != nil {
+			lo, berr = obs.Build(c12Leftover)
+		}
+		if berr != nil {
+			return nil, nil, nil, fmt.Errorf("the earlier entry does not build: %v", berr)
+		}
+		kbo, oerr, opan := loadKB(B, lo, true)
+		switch {
+		case opan != nil:
+			failing = fail("overwrite-true", 0, 0, fmt.Sprintf("loading with overwrite=true onto an existing entry panicked: %v", opan))
+		case oerr != nil:
+			failing = fail("overwrite-true", 0, 0, fmt.Sprintf("loading the complete stream with overwrite=true onto an existing entry failed: %v", oerr))
+		default:
+			var m []string
+			if d := metaDiff(origMeta, metaOf(kbo)); len(d) > 0 {
+				m = append(m, "knowledge base returned by a load with overwrite=true onto an existing entry differs in metadata: "+strings.Join(d, "; "))
+			}
+			if d := metaDiff(origMeta, metaOf(lo.GetKnowledgeBase(obs.KBName, obs.KBVersion))); len(d) > 0 {
+				m = append(m, "library entry after a load with overwrite=true onto an existing entry differs in metadata: "+strings.Join(d, "; "))
+			}
+			m = append(m, c12Behaves(c, prep, lo, cc.States[:1], "knowledge base loaded with overwrite=true onto an existing entry")...)
+			if len(m) > 0 {
+				failing = fail("overwrite-true", 0, 0, m...)
+			}
+		}
+	}
 	// --- (b) truncation
 	var boundaries []int
 	for o := range br.offsets {
@@ -393,8 +423,11 @@ func c12Run(cc *c12Case, sampleOffsets func(n int, boundaries []int) []int) ([]s
 	return v, st, failing, nil
 }
 
+// c12Leftover is a rule of the entry that a load with overwrite=true replaces.
+const c12Leftover = "rule LeftoverRule \"of the replaced entry\" salience 2000000 { when true then F.Log = F.Log + \"leftover\"; Retract(\"LeftoverRule\"); }\n"
+
 func TestC12(t *testing.T) {
-	col := stats.New("C12", "generated rule sets (pairwise distinct saliences, write->read dependencies, descriptions, int32-limit saliences) with 2-3 fact states. (a) store -> load -> store -> load (also with the stream delivered in pieces: one byte per Read, half reads, a 16-byte bufio buffer, data together with io.EOF): name, version, rule names, descriptions, saliences equal; instances of the loaded and twice-loaded knowledge base validate against fresh single-rule truth and the reference replay, and fire the same sequence with the same final facts as the original; (b) truncation: the stream is cut at every field boundary (recorded from the loader's own Read calls on the complete stream) plus a drawn sample of other offsets - every offset in the thorough tier - and each prefix must make Load return an error or yield a knowledge base that passes the same comparison; (c) the store writer fails at every write-call index (all indices); (f) a second store after a rule was removed through the library holds exactly the remaining rules; (d) overwrite=false on an existing entry: error, entry pointer-identical and behaviourally unchanged; (e) clock family: small rule sets that stamp a fact with Now() are executed 2-3 times on one instance of the stored / loaded / twice-loaded knowledge base, with and without Forget(\"Now()\"): every call's stamp must not lie before that call started. Non-trivial: the rule set's run on the first fact state needs an invalidation (>= 2 cycles and a truth flip). Distinct by rule text + facts.",
+	col := stats.New("C12", "generated rule sets (pairwise distinct saliences, write->read dependencies, descriptions, int32-limit saliences) with 2-3 fact states. (a) store -> load -> store -> load (also with the stream delivered in pieces: one byte per Read, half reads, a 16-byte bufio buffer, data together with io.EOF): name, version, rule names, descriptions, saliences equal; instances of the loaded and twice-loaded knowledge base validate against fresh single-rule truth and the reference replay, and fire the same sequence with the same final facts as the original; (b) truncation: the stream is cut at every field boundary (recorded from the loader's own Read calls on the complete stream) plus a drawn sample of other offsets - every offset in the thorough tier - and each prefix must make Load return an error or yield a knowledge base that passes the same comparison; (c) the store writer fails at every write-call index (all indices); (f) a second store after a rule was removed through the library holds exactly the remaining rules; (d) overwrite=false on an existing entry: error, entry pointer-identical and behaviourally unchanged; (g) overwrite=true onto an existing entry that holds the same rules and one more: the returned and the registered knowledge base have exactly the stored rules and behave like the stored one; (e) clock family: small rule sets that stamp a fact with Now() are executed 2-3 times on one instance of the stored / loaded / twice-loaded knowledge base, with and without Forget(\"Now()\"): every call's stamp must not lie before that call started. Non-trivial: the rule set's run on the first fact state needs an invalidation (>= 2 cycles and a truth flip). Distinct by rule text + facts.",
 		"crash points are enumerated per generated rule set; the rule sets themselves are sampled")
 	defer col.Flush()
 	rc := fullRuleCfg()
